@@ -282,9 +282,15 @@ func (s MergedStore) ListPredicates() []ast.PredicateSym {
 	return res
 }
 
-// Merge forwards to writeStore.Merge
+// Merge adds the facts of other to the write store. Facts that a read store
+// already holds are not added again.
 func (s MergedStore) Merge(other ReadOnlyFactStore) {
-	s.writeStore.Merge(other)
+	for _, pred := range other.ListPredicates() {
+		other.GetFacts(ast.NewQuery(pred), func(fact ast.Atom) error {
+			s.Add(fact)
+			return nil
+		})
+	}
 }
 
 // NewMergedStore returns a new MergedStore.
